@@ -863,7 +863,45 @@ func liftInstr(in ssa.Instruction, root *ssa.Function, grp []*ssa.Function, must
 	return in
 }
 
-// runsBefore: a is executed before b on every path that reaches b (a, b possibly in helpers of root).
+// liftChain: in, the call site of its function within the group, the call site of that one, ...
+// up to root (see liftInstr for mustRun). The chain stops where a step cannot be taken.
+func liftChain(in ssa.Instruction, root *ssa.Function, grp []*ssa.Function, mustRun bool) []ssa.Instruction {
+	chain := []ssa.Instruction{in}
+	for d := 0; d < 4 && in != nil && in.Parent() != root; d++ {
+		h := in.Parent()
+		if mustRun {
+			ok := true
+			for _, ret := range returnsOf(h) {
+				if !instrDominates(in, ret) {
+					ok = false
+				}
+			}
+			if !ok {
+				break
+			}
+		}
+		var site ssa.Instruction
+		n := 0
+		for _, g := range grp {
+			for _, c := range callsIn(g) {
+				if staticCallee(c) == h {
+					site = c
+					n++
+				}
+			}
+		}
+		if n != 1 {
+			break
+		}
+		in = site
+		chain = append(chain, in)
+	}
+	return chain
+}
+
+// runsBefore: a is executed before b on every path that reaches b (a, b possibly in helpers of
+// root, at different depths): at the first level where both have a representative in the same
+// function, a's dominates b's.
 func runsBefore(a, b ssa.Instruction, root *ssa.Function, grp []*ssa.Function) bool {
 	if a == nil || b == nil {
 		return false
@@ -871,8 +909,15 @@ func runsBefore(a, b ssa.Instruction, root *ssa.Function, grp []*ssa.Function) b
 	if a.Parent() == b.Parent() {
 		return instrDominates(a, b)
 	}
-	la, lb := liftInstr(a, root, grp, true), liftInstr(b, root, grp, false)
-	return la != nil && lb != nil && la != lb && instrDominates(la, lb)
+	ca, cb := liftChain(a, root, grp, true), liftChain(b, root, grp, false)
+	for _, x := range ca {
+		for _, y := range cb {
+			if x.Parent() == y.Parent() {
+				return x != y && instrDominates(x, y)
+			}
+		}
+	}
+	return false
 }
 
 // cname: the baseline (rename-independent) base name of a function or method; for an
